@@ -25,6 +25,17 @@ time_t time(time_t* p) { d_libc_time_calls++; if (p) *p = (time_t)d_libc_time; r
 #include "src/polyseed.c"
 #include "src/lang.c"
 #include "contracts/spec.h"
+/* native copy of the inverse-layout predicate of contracts/gf.h (that header carries CBMC contract clauses) */
+static inline bool spec_unpack_matches(gf_poly p, polyseed_data d) {
+    unsigned c[16];
+    for (int i = 0; i < 16; ++i) c[i] = (unsigned)p.coeff[i];
+    bool r = (d.checksum == p.coeff[0]);
+    unsigned e = spec_unpack_extra(c);
+    r = r && d.birthday == (e & 1023u) && d.features == (e >> 10);
+    for (unsigned j = 0; j < 32u; ++j) r = r && (d.secret[j] == spec_unpack_secret_byte(c, j));
+    return r;
+}
+#include "contracts/decode.h"
 
 static int fails = 0;
 #define CHECK(c, msg) do { if (!(c)) { printf("REPRODUCED: %s\n", msg); fails++; } } while (0)
@@ -51,7 +62,9 @@ static void r_kdf(const uint8_t* pw, size_t pwlen, const uint8_t* salt, size_t s
     for (size_t i = 0; i < keylen; ++i) key[i] = d_mask[i % 32];
 }
 static void r_memzero(void* const p, const size_t n) { d_mz_calls++; memset(p, 0, n); }
+static unsigned d_nfkd_calls; static const char* d_nfkd_arg;
 static size_t r_copy(const char* s, polyseed_str out) { size_t n = strlen(s); if (n > POLYSEED_STR_SIZE - 1) n = POLYSEED_STR_SIZE - 1; memcpy(out, s, n); out[n] = 0; return n; }
+static size_t r_nfkd(const char* s, polyseed_str out) { d_nfkd_calls++; d_nfkd_arg = s; return r_copy(s, out); }
 static uint64_t r_time(void) { d_time_calls++; return d_time; }
 static void* r_alloc(size_t n) { d_alloc_calls++; if (d_alloc_fail) return NULL; void* p = malloc(n); memset(p, 0xA5, n); d_block = p; d_live++; return p; }
 static void r_free(void* p) {
@@ -62,7 +75,7 @@ static void r_free(void* p) {
 }
 static void install(void) {
     polyseed_deps.randbytes = r_rand; polyseed_deps.pbkdf2_sha256 = r_kdf; polyseed_deps.memzero = r_memzero;
-    polyseed_deps.u8_nfc = r_copy; polyseed_deps.u8_nfkd = r_copy; polyseed_deps.time = r_time;
+    polyseed_deps.u8_nfc = r_copy; polyseed_deps.u8_nfkd = r_nfkd; polyseed_deps.time = r_time;
     polyseed_deps.alloc = r_alloc; polyseed_deps.free = r_free;
 }
 static void seed_from_hex(const char* h, polyseed_data* s) {
@@ -177,6 +190,120 @@ int main(int argc, char** argv) {
         CHECK(s.features == (o.features ^ 16u) && s.birthday == o.birthday, "crypt: flag/birthday");
         CHECK(s.checksum == spec_check(&s), "crypt: check value not recomputed for the new data");
         CHECK(d_kdf_calls == 1 && d_kdf_pwlen == 8 && !memcmp(d_kdf_pw, "password", 8) && d_kdf_saltlen == 16 && d_kdf_iter == 10000 && d_kdf_keylen == 32, "crypt: KDF arguments");
+    } else if (!strcmp(cmd, "decode") && argc == 24) {
+        /* decode <explicit 0|1> <ntok> <pd_status> <idx0..idx15> <coin> <alloc_fail> <reserved mask>
+           the phrase-decoder outcome of the counterexample is realised with English words (index i -> words[i]);
+           a language error is realised with a token that is no word; ntok tokens are supplied */
+        int explicit_ = num(argv[2]); int ntok = num(argv[3]); int pd = num(argv[4]);
+        unsigned idx[16]; for (int i = 0; i < 16; ++i) idx[i] = num(argv[5 + i]) & 2047;
+        unsigned coin = num(argv[21]) & 2047; d_alloc_fail = num(argv[22]); reserved_features = num(argv[23]);
+        if ((pd != POLYSEED_OK && pd != POLYSEED_ERR_LANG) || ntok < 0 || ntok > 17) { printf("not realisable natively\n"); return 3; }
+        const polyseed_lang* en = polyseed_get_lang(0);
+        char phrase[1024]; phrase[0] = 0;
+        for (int i = 0; i < ntok; ++i) {
+            if (i) strcat(phrase, " ");
+            strcat(phrase, (pd == POLYSEED_OK || i != 3) ? en->words[idx[i % 16]] : "zzzzqqqq");
+        }
+        if (ntok != 16) pd = POLYSEED_OK;   /* the search is not consulted */
+        polyseed_data* out = NULL; const polyseed_lang* lo = NULL;
+        polyseed_status st = explicit_ ? polyseed_decode_explicit(phrase, coin, en, &out) : polyseed_decode(phrase, coin, &lo, &out);
+        if (!explicit_ && st == POLYSEED_ERR_MULT_LANG) { printf("not realisable natively: the English realisation of these indices is also a phrase of another list\n"); return 3; }
+        polyseed_status want = spec_decode_status(ntok, (polyseed_status)pd, idx, coin, d_alloc_fail != 0, reserved_features);
+        printf("phrase: %s\nstatus %d, specification %d\n", phrase, st, want);
+        CHECK(st == want, "decode: status differs from the documented precedence (NUM_WORDS, LANG, CHECKSUM, MEMORY, UNSUPPORTED, OK)");
+        unsigned c[16]; for (int i = 0; i < 16; ++i) c[i] = idx[i]; c[1] ^= coin;
+        int reached_alloc = (ntok == 16 && pd == POLYSEED_OK && spec_eval16(c) == 0);
+        CHECK(d_alloc_calls == (unsigned)reached_alloc, "decode: allocator not called exactly when the checksum passed");
+        if (st == POLYSEED_OK) {
+            CHECK(out != NULL && d_live == 1, "decode: OK without a live seed");
+            if (out) { CHECK(spec_decode_seed(idx, coin, *out), "decode: seed fields are not the inverse layout of the words"); CHECK(spec_canonical(out), "decode: seed not canonical"); }
+            if (!explicit_) CHECK(lo == en, "decode: wrong language reported");
+        } else {
+            CHECK(out == NULL && d_live == 0, "decode: failure leaves a block allocated or writes *seed_out");
+            CHECK(!d_foreign_free && d_free_calls == (unsigned)(reached_alloc && !d_alloc_fail) && d_free_zero, "decode: block not wiped and freed exactly once on failure");
+        }
+    } else if (!strcmp(cmd, "encode") && argc == 5) {
+        /* encode <seedhex> <coin> <lang index>: real polyseed_encode against the published layout */
+        polyseed_data s; seed_from_hex(argv[2], &s); unsigned coin = num(argv[3]) & 2047; int li = num(argv[4]);
+        if (li < 0 || li >= polyseed_get_num_langs() || !spec_shape(&s) || s.checksum >= 2048) return 3;
+        const polyseed_lang* l = polyseed_get_lang(li);
+        static char expect[4096]; expect[0] = 0;
+        for (unsigned i = 0; i < 16; ++i) {
+            if (i) strcat(expect, l->separator);
+            strcat(expect, l->words[spec_coeff_raw(s.secret, s.birthday, s.features, (unsigned)s.checksum, coin, i) & 2047]);
+        }
+        polyseed_str out; polyseed_data snap = s;
+        size_t n = polyseed_encode(&s, l, coin, out);
+        printf("phrase: %s\n", out);
+        CHECK(!strcmp(out, expect), "encode: phrase differs from words[c0] sep ... words[c15] of the published layout");
+        CHECK(n == strlen(out), "encode: returned length is not the length of the output");
+        CHECK(!memcmp(&snap, &s, sizeof s), "encode: seed modified");
+    } else if (!strcmp(cmd, "nfkd_lazy") && argc == 3) {
+        /* nfkd_lazy <hex of the NUL-terminated input> */
+        static char in[2048]; size_t n = unhex(argv[2], (uint8_t*)in, sizeof in - 1); in[n] = 0;
+        polyseed_str norm; memset(norm, 0x5A, sizeof norm);
+        unsigned before = d_nfkd_calls;
+        size_t r = utf8_nfkd_lazy(in, norm);
+        size_t len = strlen(in); int ascii = 1;
+        for (size_t i = 0; i < len && i < POLYSEED_STR_SIZE - 1; ++i) if ((unsigned char)in[i] >= 0x80) ascii = 0;
+        if (ascii) {
+            size_t m = len < POLYSEED_STR_SIZE - 1 ? len : POLYSEED_STR_SIZE - 1;
+            CHECK(d_nfkd_calls == before, "nfkd_lazy: the normaliser is called for an ASCII string");
+            CHECK(r == m && !memcmp(norm, in, m) && norm[m] == 0, "nfkd_lazy: ASCII string not copied verbatim");
+        } else {
+            CHECK(d_nfkd_calls == before + 1 && d_nfkd_arg == in, "nfkd_lazy: the normaliser is not called exactly once on the whole input when a non-ASCII byte is present");
+            CHECK(r == strlen(norm), "nfkd_lazy: result is not the normaliser's length");
+        }
+    } else if (!strcmp(cmd, "split") && argc == 3) {
+        /* split <hex of the NUL-terminated polyseed_str contents>: real str_split against the reference tokeniser */
+        polyseed_str buf; memset(buf, 0, sizeof buf); size_t n = unhex(argv[2], (uint8_t*)buf, sizeof buf - 1); buf[n] = 0;
+        polyseed_str orig; memcpy(orig, buf, sizeof buf);
+        polyseed_phrase words; int r = str_split(buf, words);
+        /* reference tokeniser: the fields between single spaces (an empty field is a token); one trailing space is
+           ignored; at most 16 tokens are stored and any further text is reported as a 17th */
+        int cnt = 0; size_t starts[18]; size_t L = strlen(orig);
+        if (L > 0) {
+            size_t st = 0;
+            for (size_t i = 0; i <= L; ++i) {
+                if (i == L || orig[i] == ' ') {
+                    if (!(i == L && st == L)) { if (cnt < 17) starts[cnt] = st; if (cnt < 17) cnt++; }
+                    st = i + 1;
+                }
+            }
+        }
+        printf("str_split returned %d, reference %d\n", r, cnt);
+        CHECK(r == cnt, "str_split: token count differs from the reference tokeniser");
+        for (int i = 0; i < r && i < 16 && i < cnt; ++i) CHECK(words[i] == buf + starts[i], "str_split: token boundary differs from the reference tokeniser");
+    } else if (!strcmp(cmd, "phrase_auto") && argc == 3) {
+        /* phrase_auto <lang_out: 0 NULL, 1 non-NULL, 2 both>: the search-outcome matrix of a counterexample cannot be turned
+           into strings in general, so a battery of real token lists is tried instead: for every language one word
+           repeated 16 times (several indices), mixtures of two words, tokens shared by several lists (found by
+           scanning the real tables) and a non-word.  For each, automatic detection must equal the function of the
+           ten explicit decodings stated in the contract (exactly one -> OK with that language and those indices,
+           two or more -> MULT_LANG, none -> LANG). */
+        int mode = num(argv[2]); int nl = polyseed_get_num_langs(); long tried = 0;
+        static const char* toks[4096]; int nt = 0;
+        for (int li = 0; li < nl; ++li) { const polyseed_lang* l = polyseed_get_lang(li); int pick[] = {0, 1, 7, 300, 1024, 2046, 2047}; for (unsigned k = 0; k < sizeof pick / sizeof *pick; ++k) toks[nt++] = l->words[pick[k]]; }
+        /* words that occur verbatim in two different lists */
+        for (int a = 0; a < nl && nt < 3000; ++a) for (int b = a + 1; b < nl && nt < 3000; ++b) { int found = 0;
+            for (int i = 0; i < POLYSEED_LANG_SIZE && found < 20; ++i) if (polyseed_lang_find_word(polyseed_get_lang(b), polyseed_get_lang(a)->words[i]) >= 0) { toks[nt++] = polyseed_get_lang(a)->words[i]; found++; } }
+        toks[nt++] = "zzzzqqqq";
+        for (int t1 = 0; t1 < nt; ++t1) for (int variant = 0; variant < 3; ++variant) {
+            int t2 = variant == 0 ? t1 : (variant == 1 ? (t1 + 1) % nt : (t1 * 7 + 3) % nt);
+            polyseed_phrase ph; for (int w = 0; w < 16; ++w) ph[w] = (w == 1 || w == 9) ? toks[t2] : toks[t1];
+            int nmatch = 0, first = -1; uint_fast16_t ex[16], exf[16];
+            for (int li = 0; li < nl; ++li) if (polyseed_phrase_decode_explicit(ph, polyseed_get_lang(li), ex) == POLYSEED_OK) { if (first < 0) { first = li; memcpy(exf, ex, sizeof ex); } nmatch++; }
+            polyseed_status want = nmatch == 1 ? POLYSEED_OK : (nmatch == 0 ? POLYSEED_ERR_LANG : POLYSEED_ERR_MULT_LANG);
+            for (int wl = 0; wl < 2; ++wl) { if (mode != 2 && mode != wl) continue;
+                uint_fast16_t idx[16]; for (int w = 0; w < 16; ++w) idx[w] = 0xFFFF; const polyseed_lang* lo = NULL; tried++;
+                polyseed_status st = polyseed_phrase_decode(ph, idx, wl ? &lo : NULL);
+                int bad = st != want || (st == POLYSEED_OK && (memcmp(idx, exf, sizeof idx) != 0 || (wl && lo != polyseed_get_lang(first))));
+                if (bad && fails < 3) { printf("REPRODUCED: automatic detection (lang_out %s) returns %d on the phrase [%s %s x...]; %d language(s) recognise all tokens, specification says %d%s\n",
+                    wl ? "given" : "NULL", st, toks[t1], toks[t2], nmatch, want, st == POLYSEED_OK ? " / indices or language differ from explicit decoding" : ""); }
+                if (bad) fails++;
+            }
+        }
+        printf("%ld token lists tried\n", tried);
     } else if (!strcmp(cmd, "cmp") && argc == 5) {
         /* cmp <kind> <keyhex> <elmhex>: kind = str|prefix|str_noaccent|prefix_noaccent */
         char key[64] = {0}, elm[64] = {0}; unhex(argv[3], (uint8_t*)key, 63); unhex(argv[4], (uint8_t*)elm, 63);
